@@ -1,5 +1,5 @@
 (* Props/C14_create.v — C14 for what `pna create` writes (Proofs/CreateWfFacts.v): the hypotheses `writable` /
-   `writable_spec` / `strict_ctx` / `small_pieces` of Props/C14.v are derived from the C02 side — the tree, the options,
+   `writable_spec` / `strict_ctx` of Props/C14.v are derived from the C02 side — the tree, the options,
    the jobs that carry create's entries — so that the archive file of `create`, of `create --solid`, and the part set of
    `create --split max` / `create --solid --split max` are accepted by the strict recogniser for EVERY tree, walk order,
    option vector, codec, cipher, mode, write slicing, and every max for which the split succeeds.
@@ -12,10 +12,11 @@
                           the recogniser accepts the written archive then phc_job holds for every job — without it the
                           archive is rejected (Proofs/PhcFacts.v: the PHC codec only parses PHC-shaped strings).
      phc_ctx cfg ctx      (--solid) the same for the solid entry's own cipher context, with the 32-bit length bound.
-     small_pieces         (--solid) every write that reaches the SDAT chunk sink is below 2^32 bytes: the width of a
-                          chunk's length field.  A property of the compressor: C14_small_pieces_of_compress_small.
-                          Both are parts of writable_solid: C14_solid_output_wf_needs.
-   No size premise for file entries: wf_job's `fits` bounds the data pieces already.
+                          It is part of writable_solid: C14_solid_output_wf_needs.
+   No size premise at all: a write of 2^32 bytes or more that reaches a chunk sink is cut into several chunks
+   (FlattenWriter for the builders; ChunkStreamWriter::write since fix 45407aa2 for --solid's streaming writer:
+   Props/C14_sink.v).  `small_pieces` (every write that reaches the SDAT sink below 2^32 bytes), a premise of the --solid
+   theorems until then, is gone; C14_small_pieces_of_compress_small is kept as a fact about compressors.
    The name premise is DERIVED: C14_create_names_sane (not empty, fixed point of the sanitiser, from wf_tree + tree_ok),
    C14_create_names_valid (valid_name, with UTF-8 components).  The model create_from_tree has no filter of its own for
    empty names; it is tree_ok's `p <> []` that excludes the component-less paths ".", "..", "./" which collect_items
@@ -64,7 +65,6 @@ Theorem C14_create_solid_output_wf :
   wf_tree t -> tree_ok t ->
   Forall2 carries jobs (create_from_tree c order t) -> Forall (wf_job E compress verify pw) jobs -> Forall phc_job jobs ->
   key_iv_ok (c_key ctx) (c_iv ctx) = true -> phc_ctx cfg ctx ->
-  small_pieces E compress cfg ctx (solid_writes (map (build_job E compress) jobs)) ->
   let a := write_raw_archive 0 [solid_archive_chunks E compress cfg ctx (solid_writes (map (build_job E compress) jobs))] in
   let es := [RSolid (streamed_solid E compress cfg ctx (solid_writes (map (build_job E compress) jobs)))] in
   wf_archive a = true /\ strict_decode a = Ok es /\
@@ -79,7 +79,6 @@ Check C14_create_solid_output_wf :
   wf_tree t -> tree_ok t ->
   Forall2 carries jobs (create_from_tree c order t) -> Forall (wf_job E compress verify pw) jobs -> Forall phc_job jobs ->
   key_iv_ok (c_key ctx) (c_iv ctx) = true -> phc_ctx cfg ctx ->
-  small_pieces E compress cfg ctx (solid_writes (map (build_job E compress) jobs)) ->
   let a := write_raw_archive 0 [solid_archive_chunks E compress cfg ctx (solid_writes (map (build_job E compress) jobs))] in
   let es := [RSolid (streamed_solid E compress cfg ctx (solid_writes (map (build_job E compress) jobs)))] in
   wf_archive a = true /\ strict_decode a = Ok es /\
@@ -124,7 +123,6 @@ Theorem C14_create_solid_split_output_wf :
   wf_tree t -> tree_ok t ->
   Forall2 carries jobs (create_from_tree c order t) -> Forall (wf_job E compress verify pw) jobs -> Forall phc_job jobs ->
   key_iv_ok (c_key ctx) (c_iv ctx) = true -> phc_ctx cfg ctx ->
-  small_pieces E compress cfg ctx (solid_writes (map (build_job E compress) jobs)) ->
   let s := build_solid E compress cfg ctx [] (solid_writes (map (build_job E compress) jobs)) in
   Split.write_split max [map of_c (ser_solid s)] = Ok parts ->
   wf_parts (map ser_pfile parts) = true /\
@@ -139,7 +137,6 @@ Check C14_create_solid_split_output_wf :
   wf_tree t -> tree_ok t ->
   Forall2 carries jobs (create_from_tree c order t) -> Forall (wf_job E compress verify pw) jobs -> Forall phc_job jobs ->
   key_iv_ok (c_key ctx) (c_iv ctx) = true -> phc_ctx cfg ctx ->
-  small_pieces E compress cfg ctx (solid_writes (map (build_job E compress) jobs)) ->
   let s := build_solid E compress cfg ctx [] (solid_writes (map (build_job E compress) jobs)) in
   Split.write_split max [map of_c (ser_solid s)] = Ok parts ->
   wf_parts (map ser_pfile parts) = true /\
@@ -240,11 +237,11 @@ Print Assumptions C14_create_output_wf_needs_phc.
 
 Theorem C14_solid_output_wf_needs :
   forall (E : encryption -> bytes -> bytes -> bytes) (compress : compression -> N -> list bytes -> list bytes) cfg ctx sw,
-  writable_solid (streamed_solid E compress cfg ctx sw) -> phc_ctx cfg ctx /\ small_pieces E compress cfg ctx sw.
+  writable_solid (streamed_solid E compress cfg ctx sw) -> phc_ctx cfg ctx.
 Proof. exact solid_output_wf_needs. Qed.
 Check C14_solid_output_wf_needs :
   forall (E : encryption -> bytes -> bytes -> bytes) (compress : compression -> N -> list bytes -> list bytes) cfg ctx sw,
-  writable_solid (streamed_solid E compress cfg ctx sw) -> phc_ctx cfg ctx /\ small_pieces E compress cfg ctx sw.
+  writable_solid (streamed_solid E compress cfg ctx sw) -> phc_ctx cfg ctx.
 Print Assumptions C14_solid_output_wf_needs.
 
 Theorem C14_small_pieces_of_compress_small :
@@ -273,7 +270,6 @@ Example C14_create_wf_premises_satisfiable : exists parts sparts,
   Forall2 carries tx_jobs (create_from_tree tx_c tx_order tx_tree) /\
   Forall (wf_job real_E_of tx_compress tx_verify tx_pw) tx_jobs /\ Forall phc_job tx_jobs /\
   key_iv_ok (c_key tx_ctx) (c_iv tx_ctx) = true /\ phc_ctx tx_cfg tx_ctx /\
-  small_pieces real_E_of tx_compress tx_cfg tx_ctx (solid_writes (map (build_job real_E_of tx_compress) tx_jobs)) /\
   Split.write_split 150 tx_split_input = Ok parts /\ length parts = 7%nat /\
   Split.write_split 300 [map of_c (ser_solid tx_solid)] = Ok sparts /\ length sparts = 5%nat.
 Proof. exact create_wf_premises. Qed.
